@@ -10,6 +10,8 @@ from sa.guards import GuardView, atom_of, names_in
 from sa.index import own_nodes
 from sa.report import Ctx
 
+from .common import generic_sweeps
+
 from .sat_common import _enclosing_block
 
 EXPLANATION = (
@@ -254,6 +256,7 @@ def run(ctx: Ctx):
     ctx.ob("C17-O5", "R18 SIBLING-AGREEMENT (policy)", do, "pivot-out replaces only artificial basics (index >= n_orig) by a non-basic structural column with a non-zero entry", "if basis[i] < n_orig:\n            continue" in td and "abs(tab[i][j]) > eps" in td and "basis[i] = j" in td and "for j in range(n_orig)" in td, "", node=do.node)
     sp = ctx.func("simplex", "_phase1")
     ctx.ob("C17-O5", "R18 SIBLING-AGREEMENT (policy)", sp, "reference sibling: solve_lp's phase 1 pivots basic artificials out", "if basis[i] in art_cols" in ast.unparse(sp.node) and "_pivot(" in ast.unparse(sp.node), "", node=sp.node)
+    generic_sweeps(ctx)
 
 
 # ---------------------------------------------------------------------------------------------
